@@ -182,6 +182,10 @@ func (l *List) M__str__() (Object, error) {
 }
 
 func (l *List) M__repr__() (Object, error) {
+	if reprEnter(l) {
+		return String("[...]"), nil
+	}
+	defer reprLeave(l)
 	return Tuple(l.Items).repr("[", "]")
 }
 
